@@ -263,12 +263,12 @@ var fpSkipStructFields = map[string]map[string]string{
 }
 
 var fpSkipTypes = map[string]string{
-	"sync.Mutex":    "lock",
-	"sync.RWMutex":  "lock",
-	"sync.Once":     "lock",
+	"sync.Mutex":     "lock",
+	"sync.RWMutex":   "lock",
+	"sync.Once":      "lock",
 	"sync.WaitGroup": "lock",
-	"atomic.Int32":  "lock word",
-	"atomic.Int64":  "lock word",
+	"atomic.Int32":   "lock word",
+	"atomic.Int64":   "lock word",
 }
 
 type fpWalker struct {
